@@ -4,6 +4,7 @@ the macro text that is in the repository - the macro is data here (parsed SQL), 
 Unsupported constructs raise sqlexpr.ParseError (→ ANALYSIS-ERROR)."""
 from __future__ import annotations
 
+import calendar
 import datetime
 import re
 from typing import Any, Dict, Optional
@@ -59,7 +60,7 @@ def ev(e: E, env: Dict[str, Any], macros: Dict[str, Macro], depth: int = 0) -> A
                     return int(v)
                 return int(v)
             if ty in ("VARCHAR", "TEXT", "STRING"):
-                return str(v) if not isinstance(v, datetime.date) else v.isoformat()
+                return str(v) if not isinstance(v, datetime.date) else v.isoformat()  # a Python float prints 2.0 as DuckDB does
             if ty == "DATE":
                 if isinstance(v, datetime.date):
                     return v
@@ -94,9 +95,14 @@ def ev(e: E, env: Dict[str, Any], macros: Dict[str, Macro], depth: int = 0) -> A
         if op in ("=", "<>", "!=", "<", ">", "<=", ">="):
             return {"=": a == b, "<>": a != b, "!=": a != b, "<": a < b, ">": a > b, "<=": a <= b, ">=": a >= b}[op]
         if op == "+":
-            if isinstance(a, datetime.date) and isinstance(b, datetime.timedelta):
-                return a + b
+            if isinstance(a, datetime.date) and isinstance(b, tuple) and b[0] == "months":
+                y, m0 = divmod(a.year * 12 + (a.month - 1) + b[1], 12)
+                return datetime.date(y, m0 + 1, min(a.day, calendar.monthrange(y, m0 + 1)[1]))
             return a + b
+        if op == "/":
+            if b == 0:
+                return None
+            return a / b  # DuckDB: `/` is floating-point division
         if op == "-":
             return a - b
         if op == "*":
@@ -108,6 +114,13 @@ def ev(e: E, env: Dict[str, Any], macros: Dict[str, Macro], depth: int = 0) -> A
             r = abs(a) % abs(b)
             return r if a >= 0 else -r
         raise ParseError(f"operator {op}")
+    if k == "let":
+        env2 = dict(env)
+        for layer in e.extra:  # innermost row source first; each layer sees the names of the one below it
+            vals = {nm: ev(ex, env2, macros, depth) for nm, ex in layer}
+            env2 = dict(env2)
+            env2.update(vals)
+        return ev(e.args[0], env2, macros, depth)
     if k == "isnull":
         return (ev(e.args[0], env, macros, depth) is None) != e.val
     if k == "in":
@@ -140,6 +153,8 @@ def ev(e: E, env: Dict[str, Any], macros: Dict[str, Macro], depth: int = 0) -> A
                 n = int(n)
             if e.extra == "DAY":
                 return datetime.timedelta(days=int(n))
+            if e.extra in ("MONTH", "YEAR"):
+                return ("months", int(n) * (12 if e.extra == "YEAR" else 1))
             raise ParseError(f"interval unit {e.extra}")
         if name in ("coalesce", "ifnull"):
             for a in e.args:
@@ -151,7 +166,7 @@ def ev(e: E, env: Dict[str, Any], macros: Dict[str, Macro], depth: int = 0) -> A
         if name in macros and depth < 6:
             m = macros[name]
             if m.name not in _PARSED:
-                _PARSED[m.name] = sqlexpr.parse(m.body)
+                _PARSED[m.name] = sqlexpr.parse(m.body, let=True)
             return ev(_PARSED[m.name], dict(zip(m.params, args)), macros, depth + 1)
         if any(a is None for a in args):
             return None
@@ -179,6 +194,18 @@ def ev(e: E, env: Dict[str, Any], macros: Dict[str, Macro], depth: int = 0) -> A
             return args[0].month
         if name == "day":
             return args[0].day
+        if name == "split_part":
+            parts_ = str(args[0]).split(str(args[1]))
+            i_ = int(args[2])
+            return parts_[i_ - 1] if 1 <= i_ <= len(parts_) else ""
+        if name == "last_day":
+            return args[0].replace(day=calendar.monthrange(args[0].year, args[0].month)[1])
+        if name == "isodow":
+            return args[0].isoweekday()
+        if name == "isoyear":
+            return args[0].isocalendar()[0]
+        if name in ("weekofyear", "week"):
+            return args[0].isocalendar()[1]
         if name == "make_date":
             try:
                 return datetime.date(*[int(a) for a in args])
@@ -195,5 +222,5 @@ def ev(e: E, env: Dict[str, Any], macros: Dict[str, Macro], depth: int = 0) -> A
 def call_macro(macros: Dict[str, Macro], name: str, *args: Any) -> Any:
     m = macros[name.lower()]
     if m.name not in _PARSED:
-        _PARSED[m.name] = sqlexpr.parse(m.body)
+        _PARSED[m.name] = sqlexpr.parse(m.body, let=True)
     return ev(_PARSED[m.name], dict(zip(m.params, args)), macros, 1)
